@@ -460,6 +460,9 @@ def minimize_lbfgsb(
     # upgrade the gradient and the past sequence of gradients accordingly
     if update_fun_def is not None:
         f0, f0_old, grad, G = update_fun_def(x, f0, copy.copy(f0), grad, X, G)
+        if len(X) > 0:
+            # restart: the restored history has been rewritten as well
+            X, G = make_X_and_G_respect_strong_wolfe(X, G, eps_SY, logger=logger)
 
     if len(X) > 0:
         # only happens if checkpoint is provided (L-BFGS-B restart)
@@ -588,6 +591,10 @@ def minimize_lbfgsb(
             else:
                 f0, f0_old, grad, G = update_fun_def(x, f0, f0_old, grad, X, G)
 
+                # We must check if the updated G satisfy the strong wolfe condition
+                # (before the stop tests: the result carries X and G)
+                X, G = make_X_and_G_respect_strong_wolfe(X, G, eps_SY, logger=logger)
+
                 # Check stop criterion: minimum objective function value
                 # (same order as without update_fun_def)
                 if is_f0_target_reached(f0 / sf.scaling_factor, _ftarget, istate):
@@ -597,9 +604,6 @@ def minimize_lbfgsb(
                 # objective function
                 elif is_f0_min_change_reached(f0, f0_old, ftol, istate):
                     break  # the while loop
-
-                # We must check if the updated G satisfy the strong wolfe condition
-                X, G = make_X_and_G_respect_strong_wolfe(X, G, eps_SY, logger=logger)
 
             mats = update_lbfgs_matrices(
                 x.copy(),  # copy otherwise x might be changed in X when updated
